@@ -25,7 +25,7 @@ def gen(rng, tier, shape=None):
         files.append({"stmts": [rng.choice(MENU) for _ in range(rng.randint(1, 2))], "docstring": rng.random() < 0.3,
                       "future": rng.random() < 0.3, "has_import_already": rng.random() < 0.15})
     flags = rng.choice([["create"], ["create", "fix"], ["create", "fix", "update"], ["fix"], ["create", "fix", "trim", "update"]])
-    return {"files": files, "flags": flags}
+    return {"files": files, "flags": flags, "outside": rng.random() < 0.25}     # outside: pytest is started from another directory
 
 
 def file_src(f, idx):
@@ -58,8 +58,11 @@ def model_lines(case):
 def run_impl(case):
     from .. import impl_pytest
     files = {f"test_{chr(97 + i)}.py": file_src(f, i) for i, f in enumerate(case["files"])}
-    r = impl_pytest.run_session(files, ["--inline-snapshot=" + ",".join(case["flags"])], {}, pyproject="")
-    return {"rc": r["rc"], "traceback": "Traceback" in r["stderr"] or "Error" in r["stderr"][-400:], "stderr": r["stderr"][-500:],
+    r = impl_pytest.run_session(files, ["--inline-snapshot=" + ",".join(case["flags"])], {}, pyproject="",
+                                cwd_sub="started_here" if case.get("outside") else None)
+    internal = "INTERNALERROR" in r["stdout"]
+    return {"rc": r["rc"], "traceback": "Traceback" in r["stderr"] or "Error" in r["stderr"][-400:] or internal,
+            "stderr": (r["stdout"][-700:] if internal else r["stderr"][-500:]),
             "files": {n: {"old": files[n], "new": r["files"].get(n, b"").decode("utf-8", "replace")} for n in files}}
 
 
@@ -126,5 +129,6 @@ def histogram(case, obs, hist):
     for f in case["files"]:
         for st in f["stmts"]:
             hist["stmt:" + st] = hist.get("stmt:" + st, 0) + 1
+    hist["outside:" + str(bool(case.get("outside")))] = hist.get("outside:" + str(bool(case.get("outside"))), 0) + 1
     hist["files:" + str(len(case["files"]))] = hist.get("files:" + str(len(case["files"])), 0) + 1
     hist["changed:" + str(sum(1 for fo in obs["files"].values() if fo["old"] != fo["new"]))] = hist.get("changed:" + str(sum(1 for fo in obs["files"].values() if fo["old"] != fo["new"])), 0) + 1
